@@ -596,6 +596,46 @@ def src_search(ctx, W, B):
     B.flush()
     if len(ctx.failures) > n0:
         return True
+    # bytes contents built from 1..3 serialised objects (the re-parse loop): regenerated parser vs model parser, differing ones to the oracle
+    shaped = []
+    hosts = [c for c in W.ctors if W.fully_typed(c) and W.canonical(c) and not any(_untouchable(W, c, a['field']) for a in c['args']) and
+             any(a['ety'] == ('base', 'bytes') and not a['vec'] and a['cond'] is None for a in c['args'])]
+    pool = [c for c in W.ctors if W.covered(c) and W.canonical(c)]
+    for k in range(60):
+        host = rng.choice(hosts)
+        v = V.gen_obj(W, rng, host, 0, {'depth': 1, 'big': False})
+        a = rng.choice([a for a in host['args'] if a['ety'] == ('base', 'bytes') and not a['vec'] and a['cond'] is None])
+        inners = []
+        for _ in range(1 + k % 3):
+            ic = rng.choice(pool)
+            inners.append((ic, V.gen_obj(W, rng, ic, 0, {'depth': 1, 'big': False})))
+        v[a['field']] = b''.join(V.enc_obj(W, ic, iv, True) for ic, iv in inners)
+        exp = dict(v)
+        exp[a['field']] = inners[0][1] if len(inners) == 1 else [iv for _, iv in inners]
+        shaped.append((host, v, exp))
+    hit = TE.diff_values(ctx, W, [(h, v) for h, v, _ in shaped])
+    for h, v, exp in shaped:
+        if any(v is v2 for _, v2 in hit):
+            check_value(ctx, W, B, h, v, 'nested-in-bytes', expect_auto=exp)
+    B.flush()
+    if len(ctx.failures) > n0:
+        return True
+    # nothing found on the boundary values: the whole validation corpus (2-3 values of every covered constructor), its serialisations whole,
+    # with a tail, cut and with a changed last byte, regenerated parser vs model parser; differing values go to the round-trip / wire oracle
+    try:
+        corpus = TE.validation_values(W)
+    except Exception as e:
+        corpus = []
+        ctx.notes.append(f'source-diff search: validation corpus not available: {type(e).__name__}: {str(e)[:120]}')
+    for c, v in TE.diff_values(ctx, W, corpus, damaged=True)[:40]:
+        check_value(ctx, W, B, c, v, 'source-diff')
+        try:
+            damaged(ctx, W, B, W.lib.serialize(W.lib.list[c['idx']], copy.deepcopy(v)), c)
+        except Exception:
+            pass
+    B.flush()
+    if len(ctx.failures) > n0:
+        return True
     string_sweep(ctx, W, B)
     B.flush()
     return len(ctx.failures) > n0
